@@ -320,7 +320,7 @@ pub fn run_c07_raw(case: &Case) -> Outcome {
 
 pub fn c07(ctx: &Ctx, rep: &mut Report) {
     rep.rule = "concurrent opens from both sides with arbitrary host bytes (0..300) and ports, max_flow_id_retries 1..4, scripted id sequences over {0,1,2,3} (collisions with live flows - established streams, pending stream requests and pending bind requests -, with the peer's simultaneous choice, id 0); \
-                a raw peer that rejects the first k Connects and injects Connects with id 0 / live ids; a non-reading-peer family for the initial credit (all 64 pairs of windows 1..64, and windows 65535/65536/65537/70000). Oracle: one request = one accepted stream with exactly the requested host/port, \
+                a raw peer that rejects the first k Connects and injects Connects with id 0 / live ids; a non-reading-peer family for the initial credit (all 64 pairs of windows 1..64, and windows 300/1000/4097/10000/65535/65536/65537/70000 advertised by the opener or by the acceptor). Oracle: one request = one accepted stream with exactly the requested host/port, \
                 no Connect with id 0 or a live id, Reset for id 0 / in-use ids, exactly min(k+1,retries) attempts and FlowIdRejected iff k >= retries, initial credit == advertised window. \
                 Non-trivial = a forced collision/rejection occurred or >= 2 opens were in flight at once. Distinct = distinct case value."
         .into();
@@ -345,23 +345,22 @@ pub fn c07(ctx: &Ctx, rep: &mut Report) {
         run_c07_credit,
     );
     // windows at and above the 16-bit boundary (the window field is 32 bits wide): same oracle, one writing end
-    const BIGW: [u32; 4] = [65_535, 65_536, 65_537, 70_000];
+    const BIGW: [u32; 8] = [300, 1000, 4097, 10_000, 65_535, 65_536, 65_537, 70_000];
     ctx.enumerate(
         rep,
         "initial-credit-large-window",
-        (BIGW.len() * 2) as u64,
+        (BIGW.len() * 4) as u64,
         4,
         |i| {
-            let (w, side) = (BIGW[(i % 4) as usize], (i / 4) as usize);
-            // the acceptor advertises w, the opener a small window; only the opener writes (w + 3 one-byte writes, nobody reads)
+            let (w, side, writer_end) = (BIGW[(i % 8) as usize], ((i / 8) % 2) as usize, (i / 16) as usize);
+            // the end that does not write advertises w (in the Connect if it opened the stream, in the Acknowledge otherwise),
+            // the writing end a small window; w + 3 one-byte writes, nobody reads
+            let reader_side = if writer_end == 0 { 1 - side } else { side };
             let mut opts = [OptsSpec { rwnd: 2, thr: 1, ..OptsSpec::default() }, OptsSpec { rwnd: 2, thr: 1, ..OptsSpec::default() }];
-            opts[1 - side] = OptsSpec { rwnd: w, thr: 64, ..OptsSpec::default() };
-            Case {
-                opts,
-                streams: vec![StreamSpec { side, port: 1, pad: vec![], delay: 0, park: None, ends: [EndScript { w: vec![WOp::Write(1); w as usize + 3], r: vec![] }, EndScript { w: vec![], r: vec![] }] }],
-                step_bound: 2_000_000,
-                ..Case::default()
-            }
+            opts[reader_side] = OptsSpec { rwnd: w, thr: 64, ..OptsSpec::default() };
+            let mut ends = [EndScript { w: vec![], r: vec![] }, EndScript { w: vec![], r: vec![] }];
+            ends[writer_end].w = vec![WOp::Write(1); w as usize + 3];
+            Case { opts, streams: vec![StreamSpec { side, port: 1, pad: vec![], delay: 0, park: None, ends }], step_bound: 2_000_000, ..Case::default() }
         },
         |case| {
             let run = run_case(case);
@@ -373,11 +372,16 @@ pub fn c07(ctx: &Ctx, rep: &mut Report) {
             if s.open_ok_at.is_none() {
                 viol!(a, "c07-open-failed", "stream not established: {:?}", s.open_err);
             }
-            let peer_side = side_of_end(&case.streams[0], 1);
+            let writer_end = if case.streams[0].ends[0].w.is_empty() { 1 } else { 0 };
+            let peer_side = side_of_end(&case.streams[0], 1 - writer_end);
             let want = case.opts[peer_side].rwnd as usize;
-            let got = s.ends[0].nonempty_writes;
+            let got = s.ends[writer_end].nonempty_writes;
             if got != want {
-                viol!(a, "c07-initial-credit", "{got} writes completed against a non-reading peer that advertised a window of {want}");
+                viol!(a, "c07-initial-credit", "end {writer_end}: {got} writes completed against a non-reading peer that advertised a window of {want}");
+            }
+            // and a window that was advertised must be honoured: no Reset for frames within it (C03), nothing lost (C02/C05)
+            if let Err((sig, msg)) = a.integrity().and_then(|_| a.credit().map(|_| ())).and_then(|_| a.end_of_stream()) {
+                viol!(a, sig, "{msg}");
             }
             Outcome::pass(true, vec!["initial-credit-large-window"])
         },
@@ -523,35 +527,38 @@ pub fn run_c06(case: &Case) -> Outcome {
             present && !let_go && !reset_seen
         })
     };
+    // How an endpoint turns random draws into a proposal is not specified (redraw on zero / on a collision, probe the next id, ...),
+    // so the script is only used while the number of draws consumed so far is certain: as long as every draw of that side was a
+    // non-zero id that was definitely free - any selection rule that prefers the drawn value when it is usable consumes exactly
+    // one draw per request then. After the first zero, held or ambiguous draw the alignment is unknown and no expectation about
+    // the *choice* is made any more; what is proposed is still checked against the model (never an id the application holds).
+    let mut aligned = [true, true];
     for (cidx, i, id) in &all_connects {
         let spec = &case.streams[*i];
         let side = spec.side;
-        while let Some(d) = script[side].pop_front() {
-            if d == 0 {
-                continue;
-            }
-            if definitely_held(side, d, *cidx, *i) {
-                if d == *id {
-                    viol!(a, "c06-premature-reuse", "stream {i}: side {side} proposed flow id {d:08x} although its application still holds a live stream with that id");
+        if definitely_held(side, *id, *cidx, *i) {
+            viol!(a, "c06-premature-reuse", "stream {i}: side {side} proposed flow id {id:08x} although its application still holds a live stream with that id");
+        }
+        if !users(*id, *cidx, *i).is_empty() && definitely_free(*id, *cidx, *i) {
+            reuse += 1;
+        }
+        if aligned[side] {
+            match script[side].pop_front() {
+                None => aligned[side] = false,
+                Some(d) => {
+                    if d != 0 && definitely_free(d, *cidx, *i) {
+                        if d != *id {
+                            viol!(
+                                a,
+                                "c06-slot-leak-local",
+                                "stream {i}: side {side} drew flow id {d:08x} (every earlier draw was used as drawn), which both applications let go of before the last quiescent point, but proposed {id:08x} instead: its flow table still holds a slot for {d:08x}"
+                            );
+                        }
+                    } else {
+                        // zero, held or ambiguous: how many draws this request consumes depends on the selection rule
+                        aligned[side] = false;
+                    }
                 }
-                continue;
-            }
-            if definitely_free(d, *cidx, *i) {
-                if d != *id {
-                    viol!(
-                        a,
-                        "c06-slot-leak-local",
-                        "stream {i}: side {side} drew scripted flow id {d:08x}, which both applications let go of before the last quiescent point, but proposed {id:08x} instead: its flow table still holds a slot for {d:08x}"
-                    );
-                }
-                if !users(d, *cidx, *i).is_empty() {
-                    reuse += 1;
-                }
-                break;
-            }
-            // ambiguous (a drop may not have been processed yet): accept either outcome
-            if d == *id {
-                break;
             }
         }
         // peer side: if the id is definitely free there as well, the Connect must be acknowledged, not reset
@@ -577,6 +584,12 @@ pub fn run_c06(case: &Case) -> Outcome {
     let desync = a.streams.iter().any(|s| s.connects.len() > 1 || s.open_err.is_some());
     if desync {
         return Outcome::pass(false, vec!["desync-skipped"]);
+    }
+    // the same holds when an endpoint's id selection (which is its own business) lands on an id whose previous stream has not
+    // been let go of by both applications before a quiescent point: frames or handles of the old generation may still be around
+    let early_reuse = all_connects.iter().any(|(cidx, i, id)| !users(*id, *cidx, *i).is_empty() && !definitely_free(*id, *cidx, *i));
+    if early_reuse {
+        return Outcome::pass(false, vec!["reuse-before-both-let-go-skipped"]);
     }
     if let Err((sig, msg)) = a.integrity().and_then(|_| a.credit().map(|_| ())).and_then(|_| a.end_of_stream()) {
         viol!(a, sig, "{msg}");
